@@ -200,16 +200,23 @@ impl Preprocessor {
         desc: IncludeDesc,
     ) -> Result<(), CompileErr> {
         let name_string = decode_string(&desc.name);
-        // Terminate early checking anything with a processed include type.
-        if KNOWN_DIALECTS.contains_key(&name_string) || desc.kind.is_some() {
+        if KNOWN_DIALECTS.contains_key(&name_string) {
             return Ok(());
         }
+
+        // An embedded file is data: it is a dependency of the program, but its
+        // content is not scanned for further includes.
+        let is_embedded_data = desc.kind.is_some();
 
         let (full_name, content) = self.opts.read_new_file(self.opts.filename(), name_string)?;
         includes.push(IncludeDesc {
             name: full_name.as_bytes().to_vec(),
             ..desc
         });
+
+        if is_embedded_data {
+            return Ok(());
+        }
 
         let parsed = parse_sexp(Srcloc::start(&full_name), content.iter().copied())
             .map_err(|e| CompileErr(e.0, e.1))?;
